@@ -30,6 +30,49 @@ def check(ctx, cfg):
     r4(ctx, cfg)
     r5(ctx, cfg)
     r6(ctx, cfg)
+    r7(ctx, cfg)
+
+
+def r7(ctx, cfg):
+    """"answers ... range ... exactly as a plain ordered map would": the merge iterator answers at all - it does not go on to the next
+    entry by calling itself.  One stack frame (three, through pick_match and take_left) per consecutive deleted key means that a
+    run of a few thousand tombstones - a contract that clears a map of 5000 entries and then iterates - ends the process with a
+    stack overflow instead of an answer.  Decided on the call graph of the functions of transactions.rs: `Iterator::next` of
+    MergeOverlay is not reachable from itself.  (Stated under C06 only, not as part of the shared overlay premise.)"""
+    F = cfg.facts
+    R = "C06.R7"
+    nxt = "<transactions::MergeOverlay as std::iter::Iterator>::next"
+    f = ctx.need_fn(R, nxt)
+    if f is None:
+        return
+    def callees(g):
+        out = set()
+        for h in F.lexical(g.key):
+            for b, t in h.calls():
+                c = t["callee"]
+                k = c.get("resolved") or c["key"]
+                if k.startswith("<transactions::") or k.startswith("transactions::"):
+                    out.add(k)
+        return out
+    seen, todo, cyc = set(), [nxt], False
+    path = {}
+    while todo:
+        k = todo.pop()
+        g = F.fn(k)
+        if g is None:
+            continue
+        for c in callees(g):
+            if c == nxt:
+                cyc = True
+                path[c] = k
+            if c not in seen:
+                seen.add(c)
+                path.setdefault(c, k)
+                todo.append(c)
+    ctx.ob(R, nxt, "skipped-entries-do-not-cost-a-stack-frame", not cyc,
+           "MergeOverlay::next is reached again from %s: every consecutive deleted key adds stack frames, a run of a few thousand tombstones "
+           "overflows the stack (5001 entries, 5000 removed in the same transaction, then a range: the process aborts)" % path.get(nxt, "?"), fn=f,
+           sample="no call path from next back to next")
 
 
 def _self_field(o, name):
